@@ -7,6 +7,7 @@
 #define FCPPT_CONTAINER_DETAIL_JOIN_ALL_HPP_INCLUDED
 
 #include <fcppt/move_iterator_if_rvalue.hpp>
+#include <fcppt/container/detail/has_insert_range.hpp>
 #include <fcppt/container/detail/join_insert.hpp>
 #include <fcppt/config/external_begin.hpp>
 #include <type_traits>
@@ -29,10 +30,22 @@ template <typename Result, typename Container, typename... Args>
 inline std::remove_cvref_t<Result>
 join_all(Result &&_result, Container &&_container, Args &&..._args)
 {
-  fcppt::container::detail::join_insert(
-      _result,
-      fcppt::move_iterator_if_rvalue<Container>(_container.begin()),
-      fcppt::move_iterator_if_rvalue<Container>(_container.end()));
+  if constexpr (
+      !std::is_lvalue_reference_v<Container> &&
+      std::is_same_v<std::remove_cvref_t<Result>, std::remove_cvref_t<Container>> &&
+      fcppt::container::detail::has_insert_range<std::remove_cvref_t<Result>>::value)
+  {
+    // The elements of a set (and the keys of a map) are const: a move iterator would
+    // copy them. Splice the nodes of an rvalue associative container instead.
+    _result.merge(_container);
+  }
+  else
+  {
+    fcppt::container::detail::join_insert(
+        _result,
+        fcppt::move_iterator_if_rvalue<Container>(_container.begin()),
+        fcppt::move_iterator_if_rvalue<Container>(_container.end()));
+  }
 
   return fcppt::container::detail::join_all(
       std::forward<Result>(_result), std::forward<Args>(_args)...);
